@@ -62,278 +62,204 @@ def _better_call(test: ast.AST, ind: str, attr: str) -> Optional[str]:
     return None
 
 
-class _Undecided(Exception):
-    pass
+RANKS = (3, 5, 7)
 
 
-class _Swapped(Exception):
-    pass
+def _tracker_model(ctx: Ctx, c, attr: str, initial, batch_ranks: tuple, rank0: dict):
+    """Interpret <tracker>.evaluate(individuals) on a batch of symbolic individuals with the given aggregate ranks.
+    Returns the list of (trace, env) results, or raises."""
+    from ..modelinterp import Interp, Sym, UNKNOWN, Budget
+    prog = ctx.prog
+    ev = prog.lookup_method(c, "evaluate")
+    ranks = dict(rank0)
+    inds = []
+    for i, r in enumerate(batch_ranks):
+        t = f"ind{i + 1}"
+        ranks[t] = r
+        inds.append(Sym(t))
+
+    def fit_rank(v):
+        if isinstance(v, Sym):
+            t = v.tag
+            if t.startswith("fit:"):
+                t = t[4:]
+            return ranks.get(t.split(".")[0] if t not in ranks else t)
+        return None
+
+    def atom(it, e, env):
+        if isinstance(e, ast.Call) and call_name(e) == "is_better" and len(e.args) >= 2:
+            a = [x for x in e.args if not (isinstance(x, ast.Name) and x.id == "problem") and not is_self_attr(x, "problem")]
+            if len(a) == 2:
+                ra, rb = fit_rank(it.ev(a[0], env, 9)), fit_rank(it.ev(a[1], env, 9))
+                if ra is not None and rb is not None:
+                    return ra > rb
+        return None
+
+    def call_model(it, call, env, args, kwargs):
+        nm = call_name(call)
+        if nm == "evaluate_async":
+            return list(inds)
+        if nm == "get_fitness" and isinstance(call.func, ast.Attribute):
+            recv = it.ev(call.func.value, env, 9)
+            if isinstance(recv, Sym):
+                return Sym("fit:" + recv.tag)
+        return None
+
+    it = Interp(prog, c, atom, call_model, record_calls=("register",), max_depth=5)
+    env = {"self": Sym("self"), f"self.{attr}": initial, "self.recorders": [Sym("rec1")], "individuals": list(inds),
+           "self.problem": Sym("problem"), "self.evaluator": Sym("evaluator")}
+    return it.run(ev, env), inds, ranks
 
 
 def rule_r1_single(ctx: Ctx) -> int:
-    """Model-check the per-individual code of the single-objective tracker over the atoms
-         F = 'no best stored yet'      B = 'the new individual is strictly better than the stored best'
-    For each of the three cases (F), (not F, B), (not F, not B) the code is interpreted (boolean expressions with
-    short-circuit semantics, if/else, flag variables): the stored best must be replaced and the flag handed to the
-    recorders must be true exactly when F or B."""
+    """Model check of the single-objective tracker: its evaluate() is *interpreted* on batches of two symbolic individuals
+    for every combination of aggregate ranks {3,5,7}^2 and initial state (no best / a best of rank 5), with
+    is_better(a, b) := rank(a) > rank(b) (its own obligation is R2) and methods of the tracker inlined through the class
+    hierarchy.  After each batch the stored best and the is_best flags handed to the recorders must be those of the
+    reference semantics: replace / report exactly when there is no best yet or the new one is strictly better than the
+    current best."""
+    from ..modelinterp import Sym, UNKNOWN, Budget
     prog = ctx.prog
     n = 0
     for c in prog.subclasses(TRACKER):
-        gb = c.methods.get("get_best_individual")
-        if gb is None:
+        gb = prog.lookup_method(c, "get_best_individual")
+        if gb is None or gb.cls is None or gb.cls.fullname == TRACKER:
             continue
         rets = [r for r in walk_local(gb.node) if isinstance(r, ast.Return) and r.value is not None]
         if len(rets) != 1 or not is_self_attr(rets[0].value):
-            ctx.ob("C12.R1", gb, gb.node, "get_best_individual returns the stored best", False if rets else None,
-                   "get_best_individual does not return the tracker's stored best attribute")
+            ctx.ob("C12.R1", gb, gb.node, "get_best_individual returns the stored best", None,
+                   "get_best_individual does not return a plain attribute: cannot identify the stored best")
             continue
         attr = rets[0].value.attr
-        pib = per_individual_body(ctx, c)
-        if pib is None:
-            ctx.ob("C12.R1", gb, gb.node, "per-individual body", None, "cannot locate the per-individual code")
-            continue
-        fn, body, ind = pib
-        # aliases of the stored best: locals assigned from self.<attr>; where are they (re)assigned?
         ev = prog.lookup_method(c, "evaluate")
-        outer_alias: dict[str, ast.AST] = {}
-        inner_alias: set[str] = set()
-        body_nodes = {id(x) for st in body for x in ast.walk(st)}
-        for owner in {fn, ev} - {None}:
-            for a in walk_local(owner.node):
-                if isinstance(a, ast.Assign) and len(a.targets) == 1 and isinstance(a.targets[0], ast.Name) and is_self_attr(a.value, attr):
-                    if id(a) in body_nodes:
-                        inner_alias.add(a.targets[0].id)
-                    else:
-                        outer_alias[a.targets[0].id] = a
-        aliases = set(outer_alias) | inner_alias
-
-        def is_best_ref(e: ast.AST) -> bool:
-            return is_self_attr(e, attr) or (isinstance(e, ast.Name) and e.id in aliases)
-
-        reg = [x for st in body for x in ast.walk(st) if isinstance(x, ast.Call) and call_name(x) == "register"]
-        flag_expr = None
-        for r in reg:
-            for k in r.keywords:
-                if k.arg == "is_best":
-                    flag_expr = k.value
-            if flag_expr is None and len(r.args) >= 4:
-                flag_expr = r.args[3]
-        if not reg or flag_expr is None:
-            ctx.ob("C12.R1", fn, fn.node, "recorders are told is_best", False,
-                   "no recorder.register(..., is_best=<flag>) in the per-individual code")
+        if ev is None:
             continue
-
-        used_stale: list[ast.AST] = []
-
-        def beval(e: ast.AST, env: dict, F: bool, B: bool):
-            if isinstance(e, ast.Constant) and isinstance(e.value, bool):
-                return e.value
-            if isinstance(e, ast.Name) and e.id in env:
-                return env[e.id]
-            if isinstance(e, ast.UnaryOp) and isinstance(e.op, ast.Not):
-                return not beval(e.operand, env, F, B)
-            if isinstance(e, ast.BoolOp):
-                if isinstance(e.op, ast.Or):
-                    for v in e.values:
-                        if beval(v, env, F, B):
-                            return True
-                    return False
-                for v in e.values:
-                    if not beval(v, env, F, B):
-                        return False
-                return True
-            if isinstance(e, ast.Compare) and len(e.ops) == 1 and isinstance(e.comparators[0], ast.Constant) and e.comparators[0].value is None \
-                    and is_best_ref(e.left):
-                if isinstance(e.left, ast.Name) and e.left.id in outer_alias and e.left.id not in env.get("#refreshed", set()):
-                    used_stale.append(e)
-                return F if isinstance(e.ops[0], (ast.Is, ast.Eq)) else not F
-            if isinstance(e, ast.Call) and call_name(e) == "is_better":
-                args = [a for a in e.args if not (isinstance(a, ast.Name) and a.id == "problem") and not is_self_attr(a, "problem")]
-                if len(args) != 2:
-                    raise _Undecided(f"is_better with {len(args)} fitness arguments")
-
-                def side(a: ast.AST) -> str:
-                    has_best = any(is_best_ref(x) for x in ast.walk(a))
-                    has_ind = ind in names_read(a)
-                    return "old" if has_best and not has_ind else "new" if has_ind and not has_best else "?"
-                sd = (side(args[0]), side(args[1]))
-                for a in args:
-                    for x in ast.walk(a):
-                        if isinstance(x, ast.Name) and x.id in outer_alias and x.id not in env.get("#refreshed", set()):
-                            used_stale.append(e)
-                if F:
-                    raise _Undecided("is_better evaluated although no best is stored (would dereference None)")
-                if sd == ("new", "old"):
-                    return B
-                if sd == ("old", "new"):
-                    raise _Swapped()
-                raise _Undecided(f"is_better sides {sd}")
-            raise _Undecided(f"unrecognised condition '{norm(e)[:50]}'")
-
-        def run_body(stmts, env, F, B, out):
-            for st in stmts:
-                if isinstance(st, ast.Assign) and len(st.targets) == 1:
-                    t = st.targets[0]
-                    if isinstance(t, ast.Name):
-                        if isinstance(st.value, ast.Name) and st.value.id == ind and t.id in aliases:
-                            env.setdefault("#refreshed", set()).add(t.id)
-                            continue
-                        if is_self_attr(st.value, attr):
-                            env.setdefault("#refreshed", set()).add(t.id)
-                            continue
-                        if isinstance(st.value, (ast.Attribute, ast.Name)) and not isinstance(st.value, ast.Constant) and t.id not in ("is_best",) \
-                                and not isinstance(st.value, (ast.BoolOp, ast.Compare, ast.UnaryOp, ast.Call)):
-                            continue  # plain data alias (problem = self.problem)
-                        try:
-                            env[t.id] = beval(st.value, env, F, B)
-                        except _Undecided:
-                            if isinstance(st.value, (ast.BoolOp, ast.Compare, ast.UnaryOp, ast.Constant)) or (isinstance(st.value, ast.Call) and call_name(st.value) == "is_better"):
-                                raise
-                    elif is_self_attr(t, attr):
-                        out["assigned"] = "new" if isinstance(st.value, ast.Name) and st.value.id == ind else "other"
-                elif isinstance(st, ast.If):
-                    branch = st.body if beval(st.test, env, F, B) else st.orelse
-                    if run_body(branch, env, F, B, out) == "exit":
-                        return "exit"
-                elif isinstance(st, (ast.For, ast.AsyncFor)) and any(r in list(ast.walk(st)) for r in reg):
-                    out["flag"] = beval(flag_expr, env, F, B)
-                elif isinstance(st, ast.Expr) and isinstance(st.value, ast.Call) and st.value in reg:
-                    out["flag"] = beval(flag_expr, env, F, B)
-                elif isinstance(st, (ast.Return, ast.Continue, ast.Break)):
-                    return "exit"
-            return "fall"
-
-        for (F, B, label) in ((True, False, "no best yet"), (False, True, "strictly better than the stored best"), (False, False, "not better than the stored best")):
-            n += 1
-            out = {"assigned": None, "flag": "unset"}
-            construct = f"best-update case [{label}]"
-            try:
-                run_body(body, {}, F, B, out)
-            except _Swapped:
-                ctx.ob("C12.R1", fn, fn.node, construct, False,
-                       "is_better is applied as is_better(best, new): the stored best is replaced when the OLD one is better")
-                continue
-            except _Undecided as e:
-                ctx.ob("C12.R1", fn, fn.node, construct, None, str(e))
-                continue
-            should = F or B
-            ok_assign = (out["assigned"] == "new") == should and out["assigned"] != "other"
-            ok_flag = out["flag"] is should
-            ctx.ob("C12.R1", fn, fn.node, construct, ok_assign and ok_flag,
-                   "" if ok_assign and ok_flag else
-                   f"when the new individual is {label}: the stored best {'is' if out['assigned'] else 'is not'} replaced and recorders get "
-                   f"is_best={out['flag']}; expected replaced={should}, is_best={should}",
-                   witness={"case": label, "assigned": out["assigned"], "flag": str(out["flag"]), "expected": should})
-        # the incumbent compared against must be the current one
+        bad, undecided, scenarios = [], [], 0
+        for initial_rank in (None, 5):
+            for batch in [(a, b) for a in RANKS for b in RANKS]:
+                scenarios += 1
+                init = None if initial_rank is None else Sym("old")
+                try:
+                    results, inds, ranks = _tracker_model(ctx, c, attr, init, batch, {"old": 5})
+                except Budget:
+                    undecided.append("too many unknown branches")
+                    continue
+                # reference semantics
+                best, flags = (None if init is None else "old"), []
+                for i, r in enumerate(batch):
+                    t = f"ind{i + 1}"
+                    if best is None or r > ranks[best]:
+                        best, f = t, True
+                    else:
+                        f = False
+                    flags.append((t, f))
+                for trace, rv, notes in results:
+                    stores = [e for e in trace if e.kind == "store" and e.name == f"self.{attr}"]
+                    final = stores[-1].args[0] if stores else init
+                    final_tag = final.tag if isinstance(final, Sym) else None if final is None else "?"
+                    regs = [e for e in trace if e.kind == "call" and e.name == "register"]
+                    got = []
+                    for e in regs:
+                        ind = e.kwargs.get("individual", e.args[1] if len(e.args) > 1 else None)
+                        fl = e.kwargs.get("is_best", e.args[3] if len(e.args) > 3 else None)
+                        got.append((ind.tag if isinstance(ind, Sym) else "?", fl))
+                    if any(fl is UNKNOWN or not isinstance(fl, bool) for _, fl in got) or final_tag == "?":
+                        undecided.append(f"initial={initial_rank} batch={batch}: flag/best not determined ({got}, {final_tag})")
+                        continue
+                    if final_tag != best or got != flags:
+                        bad.append({"initial_best_rank": initial_rank, "batch_ranks": batch, "stored_best": final_tag, "expected_best": best,
+                                    "reported": got, "expected_flags": flags})
         n += 1
-        stale = sorted({norm(x)[:60] for x in used_stale})
-        ctx.ob("C12.R1", fn, used_stale[0] if used_stale else fn.node, "the comparison uses the currently stored best", not stale,
-               "" if not stale else f"'{stale[0]}' compares against '{sorted(outer_alias)[0]}', a copy of the stored best taken before the loop "
-                                    f"over the evaluated individuals and never refreshed: within one batch every individual is compared with "
-                                    f"the best from before the batch, so a later, smaller improvement overwrites an earlier, larger one")
+        if bad:
+            w = bad[0]
+            ctx.ob("C12.R1", ev, ev.node, f"{c.name}: best and is_best flags match the reference semantics on every modelled batch", False,
+                   f"with initial best of rank {w['initial_best_rank']} and a batch of ranks {w['batch_ranks']} the tracker stores "
+                   f"'{w['stored_best']}' (expected '{w['expected_best']}') and reports {w['reported']} (expected {w['expected_flags']}): the "
+                   f"reported best is not the best evaluated / recorders are misinformed ({len(bad)} of {scenarios} scenarios differ)", witness=bad[:3])
+        elif undecided:
+            ctx.ob("C12.R1", ev, ev.node, f"{c.name}: best and is_best flags match the reference semantics on every modelled batch", None, undecided[0])
+        else:
+            ctx.ob("C12.R1", ev, ev.node, f"{c.name}: best and is_best flags match the reference semantics on every modelled batch", True,
+                   f"{scenarios} scenarios interpreted")
         # nothing else stores the best
+        allowed = {m.fullname for k in prog.mro(c) for m in k.methods.values()}
         for f in prog.functions.values():
             for nd in walk_local(f.node):
                 if isinstance(nd, (ast.Assign, ast.AugAssign, ast.AnnAssign)):
                     tg = nd.targets if isinstance(nd, ast.Assign) else [nd.target]
                     for t in tg:
                         if isinstance(t, ast.Attribute) and t.attr == attr:
-                            owner_ok = f.cls is not None and prog.is_subclass(f.cls, c.fullname)
+                            owner_ok = f.cls is not None and (prog.is_subclass(f.cls, c.fullname) or f.fullname in allowed)
                             if not owner_ok and not receiver_may_be(ctx, f, t.value, c.fullname):
                                 continue
                             n += 1
-                            ok = owner_ok and (f is fn or f.name == "__init__")
-                            ctx.ob("C12.R1", f, nd, f"store to .{attr}", ok,
-                                   "" if ok else "the stored best is written outside the tracker's update path")
+                            ctx.ob("C12.R1", f, nd, f"store to .{attr}", owner_ok,
+                                   "" if owner_ok else "the stored best is written outside the tracker")
     return n
 
 
-def _pdesc(first, better) -> str:
-    a = "no best yet" if first is True else "has best" if first is False else "-"
-    b = "-" if better is None else f"{better[0]}={better[1]}"
-    return f"{a}; is_better {b}"
-
-
-def _bool_of(e: ast.AST, env: dict[str, Any]) -> Any:
-    if isinstance(e, ast.Constant) and isinstance(e.value, bool):
-        return e.value
-    if isinstance(e, ast.Name) and e.id in env:
-        return env[e.id]
-    if isinstance(e, ast.UnaryOp) and isinstance(e.op, ast.Not):
-        v = _bool_of(e.operand, env)
-        return (not v) if isinstance(v, bool) else "?"
-    return "?"
-
-
 def rule_r1_multi(ctx: Ctx) -> int:
-    """Multi-objective tracker: front replaced only under the reported flag; new front = [new] + survivors."""
+    """Same model check for the multi-objective tracker: front in {[], [a5], [a5, b5]}, batch of one or two individuals with
+    ranks in {3,5,7}; reference: not_dominated = front empty or not all(rank(x) > rank(new)); then front = [new] + {old :
+    not rank(new) > rank(old)}; is_best = not_dominated."""
+    from ..modelinterp import Sym, UNKNOWN, Budget
     prog = ctx.prog
     n = 0
     for c in prog.subclasses(TRACKER):
-        gb = c.methods.get("get_best_individuals")
+        gb = prog.lookup_method(c, "get_best_individuals")
         if gb is None:
             continue
         rets = [r for r in walk_local(gb.node) if isinstance(r, ast.Return) and r.value is not None]
         if len(rets) != 1 or not is_self_attr(rets[0].value):
             continue
         attr = rets[0].value.attr
-        pib = per_individual_body(ctx, c)
-        if pib is None:
-            continue
-        fn, body, ind = pib
-        reg = [x for x in ast.walk(ast.Module(body=body, type_ignores=[])) if isinstance(x, ast.Call)
-               and call_name(x) == "register"]
-        flag = None
-        for r in reg:
-            for k in r.keywords:
-                if k.arg == "is_best":
-                    flag = k.value
-        stores = [s for s in ast.walk(ast.Module(body=body, type_ignores=[])) if isinstance(s, ast.Assign)
-                  and any(is_self_attr(t, attr) for t in s.targets)]
+        ev = prog.lookup_method(c, "evaluate")
+        bad, undecided, scenarios = [], [], 0
+        for front0 in ([], ["a"], ["a", "b"]):
+            for batch in [(a,) for a in RANKS] + [(a, b) for a in RANKS for b in RANKS]:
+                scenarios += 1
+                try:
+                    results, inds, ranks = _tracker_model(ctx, c, attr, [Sym(t) for t in front0], batch, {"a": 5, "b": 5})
+                except Budget:
+                    undecided.append("too many unknown branches")
+                    continue
+                front, flags = list(front0), []
+                for i, r in enumerate(batch):
+                    t = f"ind{i + 1}"
+                    nd_ = (not front) or not all(ranks[x] > r for x in front)
+                    if nd_:
+                        front = [t] + [o for o in front if not (r > ranks[o])]
+                    flags.append((t, nd_))
+                for trace, rv, notes in results:
+                    stores = [e for e in trace if e.kind == "store" and e.name == f"self.{attr}"]
+                    final = stores[-1].args[0] if stores else [Sym(t) for t in front0]
+                    if not isinstance(final, list) or any(not isinstance(x, Sym) for x in final):
+                        undecided.append(f"front0={front0} batch={batch}: front not determined")
+                        continue
+                    regs = [e for e in trace if e.kind == "call" and e.name == "register"]
+                    got = []
+                    for e in regs:
+                        ind = e.kwargs.get("individual", e.args[1] if len(e.args) > 1 else None)
+                        fl = e.kwargs.get("is_best", e.args[3] if len(e.args) > 3 else None)
+                        got.append((ind.tag if isinstance(ind, Sym) else "?", fl))
+                    if any(not isinstance(fl, bool) for _, fl in got):
+                        undecided.append(f"front0={front0} batch={batch}: flag not determined ({got})")
+                        continue
+                    if sorted(x.tag for x in final) != sorted(front) or got != flags:
+                        bad.append({"front": front0, "batch_ranks": batch, "final_front": [x.tag for x in final], "expected_front": front,
+                                    "reported": got, "expected_flags": flags})
         n += 1
-        if flag is None or not isinstance(flag, ast.Name):
-            ctx.ob("C12.R1", fn, fn.node, "multi-objective: flag reported to recorders", flag is not None and None,
-                   "is_best flag is not a plain local variable" if flag is not None else "no is_best flag passed")
-            continue
-        # the flag's definition
-        fdef = [s for s in body if isinstance(s, ast.Assign) and any(isinstance(t, ast.Name) and t.id == flag.id
-                                                                     for t in s.targets)]
-        ok_def = False
-        why = "flag is not (front empty or not dominated(new, front))"
-        if len(fdef) == 1:
-            v = fdef[0].value
-            txt = norm(v)
-            dom_calls = [x for x in ast.walk(v) if isinstance(x, ast.Call) and call_name(x) == "is_dominated"]
-            negated = any(isinstance(u, ast.UnaryOp) and isinstance(u.op, ast.Not) and dom_calls and u.operand is dom_calls[0]
-                          for u in ast.walk(v))
-            arg_ok = bool(dom_calls) and len(dom_calls[0].args) == 2 and isinstance(dom_calls[0].args[0], ast.Name) \
-                and dom_calls[0].args[0].id == ind and is_self_attr(dom_calls[0].args[1], attr)
-            ok_def = len(dom_calls) == 1 and negated and arg_ok
-        ctx.ob("C12.R1", fn, fdef[0] if fdef else fn.node, "multi-objective: is_best = not dominated by the front",
-               ok_def, "" if ok_def else why)
-        for s in stores:
-            n += 1
-            from ..astutil import guards
-            gs = guards(s, stop=fn.node)
-            under_flag = any(isinstance(t, ast.Name) and t.id == flag.id and pol for t, pol in gs)
-            ctx.ob("C12.R1", fn, s, "multi-objective: front replaced only when the new individual is reported best",
-                   under_flag, "" if under_flag else "front is replaced on a path where is_best is not established")
-        # is_dominated = all(is_better(x, current) for x in others)
-        dom = prog.lookup_method(c, "is_dominated")
-        if dom is not None:
-            n += 1
-            r = [x for x in walk_local(dom.node) if isinstance(x, ast.Return)]
-            ok = False
-            why = "is_dominated is not all(is_better(other, current) for other in others)"
-            if len(r) == 1 and isinstance(r[0].value, ast.Call) and call_name(r[0].value) == "all":
-                calls = [x for x in ast.walk(r[0].value) if isinstance(x, ast.Call) and call_name(x) == "is_better"]
-                if len(calls) == 1 and len(calls[0].args) == 2:
-                    cur = dom.params[1]
-                    a0, a1 = names_read(calls[0].args[0]), names_read(calls[0].args[1])
-                    ok = cur in a1 and cur not in a0
-                    if not ok:
-                        why = "is_better arguments swapped: 'dominated' would mean the current one beats all others"
-            ctx.ob("C12.R1", dom, dom.node, "is_dominated(current, others) = all others beat current", ok, "" if ok else why)
+        if bad:
+            w = bad[0]
+            ctx.ob("C12.R1", ev, ev.node, f"{c.name}: front and is_best flags match the reference semantics on every modelled batch", False,
+                   f"with front {w['front']} (all rank 5) and a batch of ranks {w['batch_ranks']} the front becomes {w['final_front']} (expected "
+                   f"{w['expected_front']}) and recorders get {w['reported']} (expected {w['expected_flags']}): a reported best does not attain "
+                   f"the best aggregate seen so far ({len(bad)} of {scenarios} scenarios differ)", witness=bad[:3])
+        elif undecided:
+            ctx.ob("C12.R1", ev, ev.node, f"{c.name}: front and is_best flags match the reference semantics on every modelled batch", None, undecided[0])
+        else:
+            ctx.ob("C12.R1", ev, ev.node, f"{c.name}: front and is_best flags match the reference semantics on every modelled batch", True,
+                   f"{scenarios} scenarios interpreted")
     return n
 
 
@@ -484,6 +410,41 @@ def _sign_eval(env: Env, e: ast.AST, is_flag, flagval: bool) -> Any:
     return evaluate(env, e)
 
 
+def _returns_tracker_best(ctx: Ctx, f: FunctionInfo, v: Optional[ast.AST], depth: int = 0) -> Optional[bool]:
+    """True: the tracker's best; False: definitely something else; None: cannot tell."""
+    if v is None or (isinstance(v, ast.Constant) and v.value is None):
+        return True
+    core = v.value if isinstance(v, ast.Subscript) else v
+    if isinstance(core, ast.Call) and isinstance(core.func, ast.Attribute) and core.func.attr in ("get_best_individual", "get_best_individuals") \
+            and (is_self_attr(core.func.value, "tracker") or (isinstance(core.func.value, ast.Name) and core.func.value.id == "tracker")):
+        if isinstance(v, ast.Subscript):
+            return core.func.attr == "get_best_individuals" and isinstance(v.slice, ast.Constant) and v.slice.value == 0
+        return core.func.attr == "get_best_individual"
+    if isinstance(v, ast.Call) and isinstance(v.func, ast.Attribute) and is_self_attr(v.func) and depth < 3:
+        owner = ctx.res.enclosing_class(f)
+        g = ctx.prog.lookup_method(owner, v.func.attr) if owner else None
+        if g is not None:
+            rs = [r for r in walk_local(g.node) if isinstance(r, ast.Return)]
+            vals = [_returns_tracker_best(ctx, g, r.value, depth + 1) for r in rs]
+            if vals and all(x is True for x in vals):
+                return True
+            if any(x is False for x in vals):
+                return False
+            return None
+    if isinstance(v, ast.Name):
+        defs = [a for a in walk_local(f.node) if isinstance(a, ast.Assign) and any(isinstance(t, ast.Name) and t.id == v.id for t in a.targets)]
+        vals = [_returns_tracker_best(ctx, f, a.value, depth + 1) for a in defs]
+        if vals and all(x is True for x in vals):
+            return True
+        # a local that is never the tracker's best (an individual built in the loop)
+        if defs and all(isinstance(a.value, ast.Call) and call_name(a.value) in ("Individual", "create_genotype", "mutate") for a in defs):
+            return False
+        return None
+    if isinstance(v, ast.Subscript) and isinstance(v.value, ast.Name):
+        return None
+    return None
+
+
 def rule_r3(ctx: Ctx) -> int:
     prog = ctx.prog
     n = 0
@@ -492,22 +453,10 @@ def rule_r3(ctx: Ctx) -> int:
             if not isinstance(r, ast.Return):
                 continue
             n += 1
-            v = r.value
-            ok = False
-            if v is None or (isinstance(v, ast.Constant) and v.value is None):
-                ok = True  # 'no result' exit (unknown tracker kind); not a wrong individual
-                ctx.accept("C12.R3", f.loc(r), "returns None: no individual is reported")
-            else:
-                core = v.value if isinstance(v, ast.Subscript) else v
-                if isinstance(core, ast.Call) and isinstance(core.func, ast.Attribute) \
-                        and core.func.attr in ("get_best_individual", "get_best_individuals") \
-                        and is_self_attr(core.func.value, "tracker"):
-                    if isinstance(v, ast.Subscript):
-                        ok = core.func.attr == "get_best_individuals"
-                    else:
-                        ok = core.func.attr == "get_best_individual"
-            ctx.ob("C12.R3", f, r, f"search returns {norm(v) if v is not None else 'None'}"[:80], ok,
-                   "" if ok else "search() returns something other than the tracker's best individual")
+            ok = _returns_tracker_best(ctx, f, r.value)
+            ctx.ob("C12.R3", f, r, f"search returns {norm(r.value) if r.value is not None else 'None'}"[:80], ok,
+                   "" if ok else ("search() returns something other than the tracker's best individual" if ok is False else
+                                  "cannot establish that the returned value is the tracker's best"))
     ctx.floor("C12.R3", n, 4, "return statements of search() implementations")
     return n
 
@@ -546,9 +495,9 @@ def run(ctx: Ctx) -> None:
     ctx.rule("C12.R3", "every search() exit returns the tracker's best")
     ctx.rule("C12.R4", "Evaluator.evaluate/evaluate_async called only by trackers")
     n1 = rule_r1_single(ctx)
-    ctx.floor("C12.R1", n1, 4, "single-objective tracker paths and stores")
+    ctx.floor("C12.R1", n1, 2, "single-objective tracker model check and stores")
     n1m = rule_r1_multi(ctx)
-    ctx.floor("C12.R1", n1m, 3, "multi-objective tracker obligations")
+    ctx.floor("C12.R1", n1m, 1, "multi-objective tracker model check")
     rule_r2(ctx)
     rule_r3(ctx)
     rule_r4(ctx)
